@@ -1,5 +1,6 @@
 import MemcVerif.Model.Conc
 import MemcVerif.Proofs.Cmds
+import MemcVerif.Proofs.Lin
 /-!
 # C03 — concurrent get / set / CAS-set / delete on a key are atomic
 
@@ -151,6 +152,88 @@ example : (runCalls 0 [1] ⟨[([1], ⟨⟨0, 1, 0, 0⟩, [65]⟩)], 2⟩
     [.snapshot, .casSet (Record.new [66] 1 0 0), .casSet (Record.new [67] 1 0 0), .collect ⟨⟨0, 1, 0, 0⟩, [65]⟩,
      .casSet (Record.new [68] 1 0 0)]).2 = 1 := by decide
 
+/-! ## Linearizability of whole executions
+
+`Sys.run` is the concurrent system: any number of client threads, each running its own program of get / set /
+CAS-set / delete commands (on any keys — in particular all on one), interleaved call by call by an arbitrary
+schedule. The theorems say that what the clients were answered and what the store holds afterwards are those of
+the commands taking effect **one at a time**, each at one moment between its first and its last call. -/
+
+/-- **every execution is a sequence of atomic events**: for every initial store, every number of clients, all
+    programs of get/set/CAS-set/delete and every schedule (finished or not) there is a log — one event per started
+    command, in the order of their linearization points, plus internal collections of expired records — such that
+    the store is the log's result, each client's started commands appear in the log in that client's own order, and
+    each client has been answered (or, between the two calls of a get, is already owed) exactly the log's results
+    for it. -/
+theorem C03_execution_is_atomic_events (sys0 : Sys) (hfresh : sys0.fresh) (now : Nat) (sched : List Nat) :
+    ∃ log : List Ev,
+      (sys0.run now sched).store = (runEvs sys0.store now log).1 ∧
+      (sys0.run now sched).threads.length = sys0.threads.length ∧
+      ∀ i t0 t, sys0.threads[i]? = some t0 → (sys0.run now sched).threads[i]? = some t →
+        t0.todo = cmdsOf i log ++ t.todo ∧
+        outsOf i (runEvs sys0.store now log).2 = t.results ++ t.pending now := by
+  obtain ⟨log, h⟩ := rel_run now sys0 sched sys0 [] (rel_init now sys0 hfresh)
+  exact ⟨log, h.store, h.len, fun i t0 t h0 h1 => ⟨(h.thr i t0 t h0 h1).todo, (h.thr i t0 t h0 h1).outs⟩⟩
+
+/-- the internal event of that log — the collection half of a get — never changes what any retrieval of any key
+    can see: it removes at most a record whose deadline has passed -/
+theorem C03_collect_invisible (s : MemStore) (now : Nat) (k : Key) (snap : Record) (k' : Key) :
+    (s.checkIfExpired now k snap).1.vis now k' = s.vis now k' := by
+  rcases C03_collect_only_expired s now k snap with h | ⟨cur, hl, he, h⟩
+  · rw [h]
+  · rw [h]
+    by_cases hk : k' = k
+    · subst hk; simp [vis_def, Mem.lookup_erase_self, hl, he]
+    · simp [vis_def, Mem.lookup_erase_ne _ hk]
+
+/-- **linearizability** against the sequential model (`applyOp`, the model of C01, C02, C05–C08), stated for
+    concurrent phases in which nothing stored has passed its deadline (then collections do nothing; with expired
+    records around, `C03_execution_is_atomic_events` and `C03_collect_invisible` are the statement): when every
+    client has finished there is **one one-at-a-time ordering** `lin` of all commands that respects each client's
+    own order, whose sequential execution ends in exactly the final store and hands every client exactly the
+    responses it received. -/
+theorem C03_linearizable (sys0 : Sys) (hfresh : sys0.fresh) (now : Nat) (sched : List Nat)
+    (hlive : AllLive sys0.store now) (hq : (sys0.run now sched).quiescent = true) :
+    ∃ lin : List (Nat × CCmd),
+      (sys0.run now sched).store = (runSeq sys0.store now lin).1 ∧
+      ∀ i t0 t, sys0.threads[i]? = some t0 → (sys0.run now sched).threads[i]? = some t →
+        (lin.filterMap (fun p => if p.1 = i then some p.2 else none) = t0.todo) ∧
+        (t.results.map CRes.toRes =
+          (runSeq sys0.store now lin).2.filterMap (fun p => if p.1 = i then some p.2 else none)) := by
+  obtain ⟨log, h⟩ := rel_run now sys0 sched sys0 [] (rel_init now sys0 hfresh)
+  obtain ⟨e1, e2, _⟩ := runEvs_eq_runSeq now log h.plainLog sys0.store hlive
+  refine ⟨linOf log, by rw [h.store, e1], ?_⟩
+  intro i t0 t h0 h1
+  have hr := h.thr i t0 t h0 h1
+  have hfin : t.finished = true := by
+    have := List.all_eq_true.mp hq t (List.mem_of_getElem? h1)
+    exact this
+  have htodo : t.todo = [] := by
+    simp [Thread.finished] at hfin; exact hfin.1
+  have hphase : t.phase = .idle := by
+    simp [Thread.finished] at hfin; exact hfin.2
+  refine ⟨?_, ?_⟩
+  · rw [hr.todo, htodo, List.append_nil]
+    simp only [linOf, cmdsOf, List.filterMap_filterMap]
+    congr 1; funext e; cases e <;> simp
+  · rw [← e2]
+    have ho := hr.outs
+    simp only [Thread.pending, hphase, List.append_nil] at ho
+    rw [← ho]
+    simp only [outsOf, List.filterMap_map, List.map_filterMap]
+    congr 1; funext p; simp only [Function.comp]; split <;> simp
+
+/-- non-vacuity: two clients racing a CAS-store, a get and a delete on one key from a fresh, live state; the schedule
+    interleaves the two halves of the get with the other client's store -/
+example : let sys0 : Sys := ⟨⟨[([1], ⟨⟨0, 1, 0, 0⟩, [65]⟩)], 2⟩,
+      [{ todo := [.get [1], .delete [1] 0] }, { todo := [.set [1] (Record.new [66] 1 0 0)] }]⟩
+    sys0.fresh ∧ AllLive sys0.store 0 ∧ (sys0.run 0 [0, 1, 0, 0]).quiescent = true := by
+  refine ⟨?_, ?_, by decide⟩
+  · intro t ht; simp at ht; rcases ht with rfl | rfl <;> simp [CCmd.plain]
+  · intro k r h
+    simp [Mem.lookup] at h
+    obtain ⟨_, rfl⟩ := h; decide
+
 end Memc
 
 #print axioms Memc.C03_get_decides_on_snapshot
@@ -158,3 +241,6 @@ end Memc
 #print axioms Memc.C03_ack_not_undone
 #print axioms Memc.won_no_more_wins
 #print axioms Memc.C03_one_cas_winner
+#print axioms Memc.C03_execution_is_atomic_events
+#print axioms Memc.C03_collect_invisible
+#print axioms Memc.C03_linearizable
